@@ -16,6 +16,22 @@ for p in props:
     if pid not in plans.PLANS or plans.PLANS[pid].get("disabled"):
         continue
     pl = plans.PLANS[pid]
+    if "level_text" not in pl:
+        scs = pl.get("scenarios", [])
+        if scs:
+            names = []
+            for e in scs:
+                if e["scenario"] not in names:
+                    names.append(e["scenario"])
+            q = sum(e["runs"]["quick"] for e in scs)
+            t = sum(e["runs"]["thorough"] for e in scs)
+            pl["level_text"] = (f"seeded search over thread schedules, simulated-network behaviour, injected faults and generated "
+                                f"workloads: {q} runs (quick) / {t} runs (thorough) of scenarios {', '.join(names)}; every run is one "
+                                f"deterministic execution of the real library; violations are minimised and replay-gated")
+        else:
+            n = len(pl.get("enum_alloc", []))
+            pl["level_text"] = (f"fault enumeration: for each of {n} deterministic programs and each seed, one run per allocation index k "
+                                f"with allocation k failing (exhaustive over k, one schedule per seed)")
     checks.append({
         "property_id": pid,
         "quick_cmd": f"bin/check {pid} --tier quick",
